@@ -54,6 +54,9 @@ package gohbase
 //@ pred gohbase.wfcRetry(rpcs, results, rpcToRes, retryables, n) = forall(p, 0 <= p && p < len(retryables), exists(k, 0 <= k && k < n && retryables[p] == rpcs[k] && retryClass(results[rpcToRes[rpcs[k]]].Error)))
 // a call of the first n whose slot holds an error and that was not collected for retry sets the flag
 //@ pred gohbase.wfcUnretry(rpcs, results, rpcToRes, n, flag) = forall(k, 0 <= k && k < n && results[rpcToRes[rpcs[k]]].Error != nil && ghostat("retrymark", rpcs[k]) != ghost("round"), flag)
+// ... the same, with "not collected for retry" stated on the returned slice itself
+//@ pred gohbase.notInCalls(s, x) = forall(p, 0 <= p && p < len(s), s[p] != x)
+//@ pred gohbase.wfcUnretry2(rpcs, results, rpcToRes, retryables, n, flag) = forall(k, 0 <= k && k < n && results[rpcToRes[rpcs[k]]].Error != nil && notInCalls(retryables, rpcs[k]), flag)
 //@ pred gohbase.sameCalls(rpcs) = forall(k, 0 <= k && k < len(rpcs), rpcs[k] == old(rpcs[k]))
 
 // retrymark[call] == round  <=>  the call has been collected for retry in the current SendBatch round (ghost)
@@ -79,6 +82,10 @@ package gohbase
 //@   ensures[C07] wfcUnretry(rpcs, results, rpcToRes, len(rpcs), unretryableError || ghostat("ctxdone", ctx) == 1)
 //@   ensures[C07] forall(p, 0 <= p && p < len(retryables), results[rpcToRes[retryables[p]]].Error != nil)
 //@   loop 1 invariant wfcUnretry(rpcs, results, rpcToRes, i, unretryableError)
+//@   ensures[C07] wfcUnretry2(rpcs, results, rpcToRes, retryables, len(rpcs), unretryableError || ghostat("ctxdone", ctx) == 1)
+//@   loop 1 invariant wfcUnretry2(rpcs, results, rpcToRes, retryables, i, unretryableError)
+//@   loop 1 exit-assert wfcUnretry2(rpcs, results, rpcToRes, retryables, canceledIndex, unretryableError)
+//@   loop 2 invariant wfcUnretry2(rpcs, results, rpcToRes, retryables, canceledIndex, unretryableError)
 //@   loop 1 exit-assert wfcUnretry(rpcs, results, rpcToRes, canceledIndex, unretryableError)
 //@   loop 2 invariant wfcUnretry(rpcs, results, rpcToRes, canceledIndex, unretryableError)
 //@   loop 1 invariant forall(p, 0 <= p && p < len(retryables), haskey(rpcToRes, retryables[p]) && results[rpcToRes[retryables[p]]].Error != nil && exists(k, 0 <= k && k < i && retryables[p] == rpcs[k]))
@@ -196,7 +203,7 @@ package gohbase
 //@   requires marksBelow()
 //@   panics never[C07]
 //@   ensures[C07] len(res) == len(batch)
-//@   ensures[WIP] allOK ==> forall(j, 0 <= j && j < len(res), res[j].Error == nil)
+//@   ensures[C07] allOK ==> forall(j, 0 <= j && j < len(res), res[j].Error == nil)
 // the part of it that is proved: a batch is reported all-OK only if its last round collected no call for another attempt
 // (calls collected for retry carry their error in their slot: retriesOK)
 //@   ensures[C07] allOK ==> forall(x, ghostat("retrymark", x) != ghost("round") || ghost("round") == old(ghost("round")))
@@ -216,6 +223,7 @@ package gohbase
 //@   loop "for" invariant sbOrig(old(batch), rpcToRes, len(res)) && sbCur(batch, old(batch), rpcToRes, len(res))
 //@   loop "for" invariant sbDone(res, batch, old(batch), rpcToRes, len(res)) && sbOwn(res, old(batch), len(res))
 //@   loop "for" invariant allOK == !unretryableErrorSeen
+//@   loop "for" invariant[C07] sbSeen(res, batch, rpcToRes, len(res), unretryableErrorSeen)
 //@   loop "for" invariant len(retries) == 0 && backoff >= 0
 //@   loop "for" step[C07] forall(j, 0 <= j && j < len(res) && athead("for", res[j].Error) == nil, res[j].Error == nil && res[j].Msg == athead("for", res[j].Msg))
 //@   at call findClients#1 ghost round == ghost("round") + 1
@@ -228,6 +236,26 @@ package gohbase
 //@   loop "for _, cAndR := range cAndRs" invariant allOK ==> !unretryableErrorSeen && athead("for", allOK)
 //@   loop "for _, cAndR := range cAndRs" invariant[C07] athead("for", unretryableErrorSeen) ==> unretryableErrorSeen
 //@   loop "for _, cAndR := range cAndRs" invariant untouched(cAndRs, res, rpcToRes, len(res), idx)
+//@   loop "for _, cAndR := range cAndRs" invariant[C07] forall(rc, haskey(rpcByClient, rc) ==> exists(t, 0 <= t && t < len(cAndRs) && cAndRs[t].client == rc))
+//@   loop "for _, cAndR := range cAndRs" invariant[C07] groupsCover(rpcByClient, athead("for", batch), len(athead("for", batch)))
+// the flag is true exactly when every slot holds a nil error (C07). Per round: a slot of a finished group that holds an
+// error and whose call was not collected for retry has set the unretryable flag (or the context is done): a slot with an
+// error whose call is not sent again keeps the flag down
+//@   loop "for _, cAndR := range cAndRs" invariant[C07] forall(u, p, 0 <= u && u < idx && 0 <= p && p < len(cAndRs[u].rpcs) && res[rpcToRes[cAndRs[u].rpcs[p]]].Error != nil && notInCalls(retries, cAndRs[u].rpcs[p]), unretryableErrorSeen || ghostat("ctxdone", ctx) == 1)
+//@   at loopend 5 assert[C07] forall(u, p, 0 <= u && u < athead(5, idx) && 0 <= p && p < len(cAndRs[u].rpcs), res[rpcToRes[cAndRs[u].rpcs[p]]].Error == athead(5, res[rpcToRes[cAndRs[u].rpcs[p]]].Error))
+//@   at loopend 5 assert[C07] forall(x, notInCalls(retries, x) ==> athead(5, notInCalls(retries, x)))
+//@   at loopend 5 assert[C07] len(retries) == athead(5, len(retries)) + ite(ok, 0, len(shouldRetry)) && forall(q, 0 <= q && q < len(shouldRetry) && !ok, retries[athead(5, len(retries)) + q] == shouldRetry[q])
+//@   at loopend 5 assert[C07] ok ==> forall(p, 0 <= p && p < len(cAndR.rpcs), res[rpcToRes[cAndR.rpcs[p]]].Error == nil)
+//@   at loopend 5 assert[C07] !ok ==> forall(x, notInCalls(retries, x) ==> notInCalls(shouldRetry, x))
+//@   at loopend 5 assert[C07] !ok ==> forall(p, 0 <= p && p < len(cAndR.rpcs) && res[rpcToRes[cAndR.rpcs[p]]].Error != nil && notInCalls(shouldRetry, cAndR.rpcs[p]), unretryableErrorSeen || ghostat("ctxdone", ctx) == 1)
+//@   at loopend 5 assert[C07] forall(p, 0 <= p && p < len(cAndR.rpcs) && res[rpcToRes[cAndR.rpcs[p]]].Error != nil && notInCalls(retries, cAndR.rpcs[p]), unretryableErrorSeen || ghostat("ctxdone", ctx) == 1)
+//@   at loopend 5 assert[C07] cAndR == cAndRs[athead(5, idx)] && (athead(5, unretryableErrorSeen) ==> unretryableErrorSeen)
+//@   loop "for _, cAndR := range cAndRs" exit-assert[C07] forall(k, 0 <= k && k < len(athead("for", batch)), exists(u, p, 0 <= u && u < len(cAndRs) && 0 <= p && p < len(cAndRs[u].rpcs), cAndRs[u].rpcs[p] == athead("for", batch)[k]))
+//@   loop "for _, cAndR := range cAndRs" exit-assert[C07] forall(k, 0 <= k && k < len(athead("for", batch)) && res[rpcToRes[athead("for", batch)[k]]].Error != nil && notInCalls(retries, athead("for", batch)[k]), unretryableErrorSeen || ghostat("ctxdone", ctx) == 1)
+//@   loop "for _, cAndR := range cAndRs" exit-assert[C07] allOK ==> forall(k, 0 <= k && k < len(athead("for", batch)), res[rpcToRes[athead("for", batch)[k]]].Error == nil)
+//@   loop "for _, cAndR := range cAndRs" exit-assert[C07] forall(j, 0 <= j && j < len(res) && notIn(athead("for", batch), rpcToRes, j) && res[j].Error != nil, athead("for", unretryableErrorSeen))
+//@   loop "for _, cAndR := range cAndRs" exit-assert[C07] allOK ==> forall(j, 0 <= j && j < len(res), res[j].Error == nil)
+//@   loop "for _, cAndR := range cAndRs" exit-assert[C07] forall(j, 0 <= j && j < len(res) && res[j].Error != nil && notIn(retries, rpcToRes, j), unretryableErrorSeen || ghostat("ctxdone", ctx) == 1)
 //@   loop "for _, cAndR := range cAndRs" invariant forall(u, p, idx <= u && u < len(cAndRs) && 0 <= p && p < len(cAndRs[u].rpcs), ghostat("retrymark", cAndRs[u].rpcs[p]) != ghost("round"))
 //@   loop "for _, cAndR := range cAndRs" invariant carOK(cAndRs, rpcByClient) && groupsOK(rpcByClient, athead("for", batch), len(athead("for", batch))) && groupsOrdered(rpcByClient)
 //@   loop "for _, cAndR := range cAndRs" invariant sbOrig(old(batch), rpcToRes, len(res)) && sbCur(athead("for", batch), old(batch), rpcToRes, len(res))
@@ -352,6 +380,9 @@ package gohbase
 //@   modifies X.lookups, X.ctxdone, X.regionstate, X.slept, X.nsleeps, X.attempts, X.callregion, X.closereq, X.unavail, X.token, X.regclient
 //@   panics never[C01]
 //@   ensures[C01,C12] r0 != nil && !special(c, table) ==> routes(r0, table, key)
+// a freshly looked-up region enters the cache already marked unavailable (C09): a caller that finds it there waits for
+// its establisher instead of winning the mark itself and starting a second one
+//@   at call put#1 assert[C09] ghostat("unavail", reg) == 1
 
 //@ func gohbase.(*client).getRegionForRpc
 //@   modifies X.lookups, X.ctxdone, X.regionstate, X.slept, X.nsleeps, X.attempts, X.callregion, X.closereq, X.unavail, X.token, X.regclient
@@ -421,9 +452,31 @@ package gohbase
 //@   loop 1 invariant[C09] ghostat("unavail", reg) == 1 && forall(k, old(ghostat("unavail", k)) == 1 ==> ghostat("unavail", k) == 1)
 //@   loop 1 invariant[C09] forall(k, ghostat("token", k) == old(ghostat("token", k)) || ghostat("token", k) == 0)
 //@   loop 1 invariant[C09] forall(k, haskey(downregions, k) ==> k != nil)
+// the probe decides whether the region is served where meta says it is: an answer of one of the three retry classes -
+// connection dead, region not served there, server asks to retry - is a failed probe, and the establisher then waits its
+// back-off before looking again (C17, C04); counted as "established", a region that never comes online is re-probed,
+// re-looked-up and re-requested in a hot loop
 //@ func gohbase.isRegionEstablished
-//@   trusted "probe request: counted as an attempt; no effect on the establisher token"
+//@   requires reg != nil
 //@   modifies X.attempts, X.callregion, X.ctxdone
+//@   at return 2 assert[C17,C04] !typeis(res.Error, "region.ServerError") && !typeis(res.Error, "region.NotServingRegionError") && !typeis(res.Error, "region.RetryableError")
+//@   at return 1 assert[C17,C04] res.Error != nil
+//@ func gohbase.sendBlocking
+//@   trusted "hands the call to the connection (counted as an attempt) and waits for its result or for the context"
+//@   modifies X.attempts, X.ctxdone
+//@ func gohbase.probeKey
+//@   requires reg != nil
+//@   modifies nothing
+//@ func hrpc.SkipBatch
+//@   trusted "option constructor"
+//@   modifies nothing
+//@ func hrpc.NewGet
+//@   trusted "constructor: allocates a new Get and applies the options; fails only if an option is rejected"
+//@   modifies nothing
+//@   ensures r1 == nil ==> r0 != nil && ghostold("alloc", r0) != 1
+//@ func hrpc.(*Get).ExistsOnly
+//@   requires g != nil
+//@   modifies F.hrpc.Get.existsOnly
 //@ func gohbase.fullyQualifiedTable
 //@   trusted "pure helper: namespace:table, or the bare table for the default namespace (a function of the immutable region identity); assumption: region descriptors carry legal table names (name plus ',,:' fits HBase's MAX_ROW_LENGTH)"
 //@   pure
@@ -633,6 +686,11 @@ package gohbase
 //@   loop 1 invariant[C14] forall(k, 0 <= k && k < len(s.results), s.results[k] != result)
 //@   loop 1 invariant[C14] old(s.closed) && old(len(s.results)) == 0 ==> s.closed && len(s.results) == 0 && result == nil
 //@   loop 1 invariant[C14] allocated(result)
+// an error that arrives while a row is being assembled is reported together with that row (ghost ncoal counts the
+// fragments taken into the row by this call): the cells already received are not dropped
+//@   at call coalesce#1 ghost ncoal == ghost("ncoal") + 1
+//@   loop 1 invariant[C14] ghost("ncoal") >= old(ghost("ncoal")) && (ghost("ncoal") != old(ghost("ncoal")) ==> result != nil)
+//@   ensures[C14] r1 != nil && ghost("ncoal") != old(ghost("ncoal")) ==> r0 != nil
 
 // ---- routing (C01): the search key, and what a cache hit guarantees ----
 // searchKey(r, table, key, kl): r == table ++ "," ++ key[:kl] ++ ",:"
